@@ -92,3 +92,64 @@ def run(chk, drv, n):
                                     {"expression": sx(export_id(e)), "arg": arg})
     for kind in cnt:
         chk.corr(kind, cnt[kind], mism[kind])
+
+
+def export_graph(g):
+    """canonical text shared with Lean `graphToSexp`"""
+    from tensora.iteration_graph.iteration_graph import IterationNode, SumNode, TerminalNode
+
+    if isinstance(g, TerminalNode):
+        return [Atom("T"), export_id(g.expression)]
+    if isinstance(g, IterationNode):
+        o = Atom("nil") if g.output is None else [g.output.tensor.id, g.output.layer]
+        return [Atom("I"), g.index_variable, o, export_graph(g.next)]
+    if isinstance(g, SumNode):
+        return [Atom("S")] + [export_graph(t) for t in g.terms]
+    raise TypeError(type(g).__name__)
+
+
+def best_graph_request(pr):
+    from . import algebra
+
+    fs = [[n, "".join(pr.fmts[n][0]), list(pr.fmts[n][1])] for n in pr.problem.formats.keys()]
+    return "GRAPH " + sx(algebra.export_assignment(pr.assignment)) + " " + sx(fs)
+
+
+def real_outcome(pr):
+    """('graph', text, lowerable) | ('diagonal',) | ('nokernel',) from the real front half + generate_ir"""
+    from returns.result import Failure
+    from tensora.desugar import DiagonalAccessError, NoKernelFoundError, best_algorithm, desugar_assignment, index_dimensions, to_identifiable
+    from tensora.iteration_graph import Definition, generate_ir
+    from tensora.kernel_type import KernelType
+
+    d = desugar_assignment(pr.problem.assignment)
+    r = best_algorithm(d, pr.problem.formats)
+    if isinstance(r, Failure):
+        return ("diagonal",) if isinstance(r.failure(), DiagonalAccessError) else ("nokernel",)
+    g = r.unwrap()
+    definition = Definition(to_identifiable(d.target, pr.problem.formats), pr.problem.formats, index_dimensions(d))
+    try:
+        generate_ir(definition, g, KernelType.evaluate)
+        low = True
+    except (NotImplementedError, RuntimeError):
+        low = False
+    return ("graph", sx(export_graph(g)), low)
+
+
+def run_graphs(chk, drv, prepared):
+    reqs = [best_graph_request(pr) for pr in prepared]
+    mism = 0
+    for pr, rep in zip(prepared, drv.batch(reqs)):
+        real = real_outcome(pr)
+        tag = rep[0] if isinstance(rep, list) else str(rep)
+        chk.count("graph_outcome_" + real[0])
+        if real[0] == "graph":
+            good = tag == "graph" and sx(rep[1]) == real[1] and (rep[3] == "true") == real[2]
+            if not real[2]:
+                chk.count("graph_not_lowerable")
+        else:
+            good = tag == real[0]
+        if not good:
+            mism += 1
+            chk.unproved_obligation("correspondence:best_algorithm", f"model {sx(rep)[:400]} vs code {str(real)[:400]}", pr.case())
+    chk.corr("best_algorithm+lowerable", len(prepared), mism)
